@@ -180,6 +180,9 @@ func goid() int {
 
 const callDeadline = 3 * time.Second
 
+// close codes a peer may send (the script's k selects one)
+var closeCodes = []int{1000, 1001, 1002, 1008, 1011, 3000, 4001, 4452, 4999, 1003}
+
 func runScript(s script) *result {
 	l := &evlog{}
 	res := &result{ID: s.ID, Script: s, gid: goid()}
@@ -205,7 +208,8 @@ func runScript(s script) *result {
 				case cmd == "eof":
 					_ = c.UnderlyingConn().Close()
 				case strings.HasPrefix(cmd, "close"):
-					_ = c.WriteControl(websocket.CloseMessage, websocket.FormatCloseMessage(4452, "peer close"), time.Now().Add(time.Second))
+					code, _ := strconv.Atoi(cmd[5:])
+					_ = c.WriteControl(websocket.CloseMessage, websocket.FormatCloseMessage(code, "peer close"), time.Now().Add(time.Second))
 				case strings.HasPrefix(cmd, "in"):
 					n, _ := strconv.Atoi(cmd[2:])
 					_ = c.WriteMessage(websocket.BinaryMessage, []byte{1, 0, byte(n)})
@@ -283,8 +287,9 @@ func runScript(s script) *result {
 			cr := vh.Call(callDeadline, func() { sut.CloseDataConnection(4001, "close") })
 			l.add("CloseEnd", 0, 1, map[bool]string{true: "hang", false: "ok"}[cr.Hung])
 		case "peerClose":
-			l.add("PeerClose", 0, 0, "")
-			peerCmd <- "close"
+			code := closeCodes[(s.K+len(closeCodes)-1)%len(closeCodes)]
+			l.add("PeerClose", 0, code, "")
+			peerCmd <- "close" + strconv.Itoa(code)
 		case "peerEof":
 			l.add("PeerEof", 0, 0, "")
 			peerCmd <- "eof"
